@@ -45,6 +45,13 @@ Theorem C13_isolation : forall ops0 o, let c := final init ops0 in
 Proof. exact C13_isolation_proof. Qed.
 Print Assumptions C13_isolation.
 
+(* a load can be repeated and interposed anywhere: same answer, and every later answer is unchanged
+   (in ANY state, reachable or not: nothing like a cache, a counter or a lazily built index is touched by reading) *)
+Theorem C13_load_repeatable : forall c o, is_load o = true ->
+  step (fst (step c o)) o = step c o /\ (forall ops, outs (fst (step c o)) ops = outs c ops).
+Proof. exact C13_load_repeatable_proof. Qed.
+Print Assumptions C13_load_repeatable.
+
 (* the jobs present after a history = the jobs present before + the ones created in it (nothing is lost) *)
 Theorem C13_final_union : forall ops0 ops j, let c := final init ops0 in
   a_jex (abs (final c ops)) j = true <-> a_jex (abs c) j = true \/ In j (jids_of (outs c ops)).
